@@ -23,10 +23,6 @@ impl<'de> Deserialize<'de> for F {
     }
 }
 
-pub fn f(x: f32) -> F {
-    F(x)
-}
-
 pub type Mat = [F; 6];
 
 pub fn mat_identity() -> Mat {
@@ -118,7 +114,6 @@ impl SrcSpec {
     }
 }
 
-pub const N_BLEND: u8 = 28;
 pub const BLEND_NAMES: [&str; 28] = [
     "Dst", "Src", "Clear", "SrcOver", "DstOver", "SrcIn", "DstIn", "SrcOut", "DstOut", "SrcAtop", "DstAtop", "Xor",
     "Add", "Screen", "Overlay", "Darken", "Lighten", "ColorDodge", "ColorBurn", "HardLight", "SoftLight",
@@ -127,23 +122,12 @@ pub const BLEND_NAMES: [&str; 28] = [
 pub const BLEND_SRC_OVER: u8 = 3;
 pub const BLEND_DST: u8 = 0;
 pub const BLEND_SRC: u8 = 1;
-pub const BLEND_CLEAR: u8 = 2;
-
-pub fn is_nonseparable(blend: u8) -> bool {
-    blend >= 24
-}
 
 #[derive(Clone, Debug, PartialEq, Serialize, Deserialize)]
 pub struct Opts {
     pub blend: u8,
     pub alpha: F,
     pub aa: bool,
-}
-
-impl Opts {
-    pub fn default() -> Opts {
-        Opts { blend: BLEND_SRC_OVER, alpha: F(1.), aa: true }
-    }
 }
 
 #[derive(Clone, Debug, PartialEq, Serialize, Deserialize)]
